@@ -130,6 +130,14 @@ class Walk:
         self.mon, self.rng, self.case = mon, rng, case
         ntok = rng.randint(2, 5)
         toks = rng.sample(TOKEN_POOL, ntok)
+        if rng.random() < 0.25:
+            # both USDC reserves of a chain that has the bridged coin too: two rows with the symbol USDC in the parameter file, the
+            # bridged one first, each with its own risk parameters
+            toks = [t for t in toks if t[0] not in ("USDC", "USDC.E")][: max(0, ntok - 2)]
+            at = rng.randint(0, len(toks))
+            toks = toks[:at] + [("USDC.E", 6)] + toks[at:]
+            at2 = rng.randint(at + 1, len(toks))
+            toks = toks[:at2] + [("USDC", 6)] + toks[at2:]
         self.index_kind = rng.choice(["flat", "slow", "jumpy", "jumpy"])
         self.w = W.AaveWorld(rng, n=4, tokens=toks, index_kind=self.index_kind, all_flags=rng.random() < 0.3)
         self.m = self.w.market()
